@@ -1345,6 +1345,11 @@ func (w *world) applyStep(e *event, s *Step) {
 		}
 		cl.mount = w.mountOf(s.U, s.T)
 		cl.conn = newSimConn(&w.stamp, w.start, w.notify)
+		if s.J == 1 {
+			// the link dies under the broker's first write to this connection: the CONNACK
+			cl.conn.armWriteFailure()
+			w.statAdd("fault.write_failure_armed", 1)
+		}
 		cl.connectAt = w.nowMs()
 		w.clients[s.C] = cl
 		n := w.nodes[s.N]
